@@ -564,6 +564,27 @@ def run(index, rep, tier):
         nb = borrow(index, rep, "C10", {"R10.2", "R10.3"}, "R14.14")
         rep.floor("R14.14", "borrowed obligations", 3, nb)
 
+    # ---- R14.15 every compile route stores the zero diagonal
+    with rep.section("R14.15"):
+        rep.rule("R14.15", "every compile route stores the zero diagonal: compile_from_tree writes `distances[t][t] = 0.0` for each mapped taxon, and the table writers (write_csv, as_data_table) and the cluster methods read `dmatrix[t1][t2]` for ALL pairs including t1 == t2 - so compile_from_dict, which receives the upper triangle only from from_csv, stores a zero for every taxon with itself as well (a store or setdefault whose two keys are the same expression)")
+        PDMC = "dendropy.calculate.phylogeneticdistance.PhylogeneticDistanceMatrix"
+        n15 = 0
+        for name in ("compile_from_tree", "compile_from_dict"):
+            f = index.function(PDMC + "." + name)
+            n15 += 1
+            diag = False
+            for x in ast.walk(f.node):
+                if isinstance(x, ast.Assign) and len(x.targets) == 1 and isinstance(x.targets[0], ast.Subscript) and isinstance(x.targets[0].value, ast.Subscript) \
+                        and "_taxon_phylogenetic_distances" in norm(x.targets[0].value.value) and norm(x.targets[0].slice) == norm(x.targets[0].value.slice) \
+                        and isinstance(x.value, ast.Constant) and x.value.value in (0, 0.0):
+                    diag = True
+                if isinstance(x, ast.Call) and call_name(x) == "setdefault" and len(x.args) == 2 and isinstance(x.args[1], ast.Constant) and x.args[1].value in (0, 0.0) \
+                        and "_taxon_phylogenetic_distances" in norm(x.func.value) and norm(x.args[0]) in norm(x.func.value):
+                    diag = True
+            rep.check(diag, "R14.15", f.qualname, "zero diagonal not stored", fn_where(f), "%s stores distance(t, t) = 0 for every mapped taxon" % name,
+                      "PhylogeneticDistanceMatrix.%s never stores the distance of a taxon to itself: a matrix read with from_csv (which hands over the upper triangle only) answers distance(a, a) but raises KeyError in write_csv / as_data_table, which read dmatrix[t][t] - a matrix read back from CSV cannot be written again" % name)
+        rep.floor("R14.15", "compile routes", 2, n15)
+
 
 def option_default_rule(index, rep, rid, cq, options):
     ci = index.klass(cq)
